@@ -14,6 +14,8 @@ import (
 	"strings"
 	"sync"
 	"time"
+
+	"verif/harness/vstat"
 )
 
 const Jar = "/opt/veriftools/tla/tla2tools.jar"
@@ -39,6 +41,14 @@ func scratch() (string, error) {
 func EvalBatch(exprs []string) ([]Answer, error) {
 	answers := make([]Answer, len(exprs))
 	for from := 0; from < len(exprs); {
+		if dl := vstat.DeadlineAt(1.5); !dl.IsZero() && time.Now().After(dl) {
+			// the shard's wall budget is spent (a slow or busy machine): the rest is not judged, and says so
+			for i := from; i < len(exprs); i++ {
+				answers[i] = Answer{Text: "not submitted: the shard's time budget was spent", Timeout: true}
+			}
+			vstat.ClassN("budget.tlc-expressions-not-submitted", int64(len(exprs)-from))
+			break
+		}
 		done, err := evalSome(exprs, from, answers)
 		if err != nil {
 			return nil, err
